@@ -546,6 +546,13 @@ class Interp:
         if seen is not None:
             seen.append((self, e, tail, args, self.ev(recv) if recv is not None and not (isinstance(recv, ast.Name) and recv.id in ("geom", "geometry", "np", "numpy", "math", "Vec")) else None))
         if tail in ZERO_DEG:
+            # dimensionless result; a library function is still interpreted with these arguments for the tests / clamps it contains
+            target = self.world.resolve(self.modname, e)
+            if target is not None and self.depth < 4:
+                sub = Interp(self.world, target[0], target[1], self.bind_args(target[1], e, args), self.depth + 1)
+                sub.nframe = self.nframe + 10 * (self.depth + 1)
+                sub.run()
+                self.world.visited(target[0], target[1], {}, sub)
             return Val(0, ("S", Poly.atom("<" + au.src(e) + ">")))
         if tail == "len":
             return Val(0, ("S", Poly.atom("len(" + self.coll_key(e.args[0]) + ")"))) if e.args else UNK
@@ -600,7 +607,15 @@ class Interp:
                 el = v.a[1]
                 return Val(el.deg, el.a if el.a is not None and el.a[0] in ("P", "V2", "C") else None)
             return Val(v.deg if isnum(v.deg) else None, None)
-        if tail in ("max", "min", "amax", "amin") and args:
+        if tail in ("max", "min", "maximum", "minimum", "fmax", "fmin", "clip") and len(args) >= 2:
+            # a dimensional quantity bounded by an absolute non-zero literal: the same defect as comparing it with that literal
+            for i, (a, v) in enumerate(zip(e.args, args)):
+                if isnum(v.deg):
+                    for j, other in enumerate(e.args):
+                        c = order.fold_const(other) if j != i else None
+                        if c is not None and c != 0 and order.fold_const(a) is None:
+                            self.compares.append((e, a, c, v.deg))
+        if tail in ("max", "min", "amax", "amin", "maximum", "minimum", "fmax", "fmin") and args:
             dg = args[0].deg
             for v in args[1:]:
                 dg = d_add(dg, v.deg)
